@@ -150,6 +150,21 @@ class Exec:
             if p not in env:
                 raise Unsupported("use of unassigned local " + p)
             return env[p]
+        m = re.match(r"^\(\*(_\d+)\)$", p)
+        if m:      # references are transparent
+            if m.group(1) not in env:
+                raise Unsupported("use of unassigned local " + p)
+            return env[m.group(1)]
+        m = re.match(r"^\(\((\(\*_\d+\)|_\d+) as (\w+)\)\.(\d+): (.*)\)$", p)
+        if m and self.place(m.group(1), env).kind == "anyvariant":
+            v = self.place(m.group(1), env)
+            if v.seen not in (None, m.group(2)) or int(m.group(3)) != 0:
+                raise Unsupported("second projection of the input enum")
+            v.seen = m.group(2)
+            return v.payload
+        m = re.match(r"^\((\(\*_\d+\))\.(\d+): (.*)\)$", p)
+        if m and self.place(m.group(1), env).kind == "ident":
+            return Val("opaque", tag="ident_field_%s" % m.group(2))
         # (_20.1: bool) / ((_3 as Continue).0: T)
         m = re.match(r"^\((.*)\.(\d+): (.*)\)$", p)
         if m:
@@ -216,6 +231,8 @@ class Exec:
             v = self.place(m.group(1), env)
             if v.kind == "cenum":
                 return BV(64, v.disc)
+            if v.kind == "anyvariant":
+                return BV(64, bv(64, v.index))
             if v.kind == "variant":
                 return BV(64, bv(64, v.index))
             if v.kind == "opt":
@@ -242,6 +259,13 @@ class Exec:
         m = re.match(r"^&(mut )?(_\d+)$", rhs)
         if m:
             return env[m.group(2)]
+        m = re.match(r"^&(mut )?(\(.*\))$", rhs)
+        if m and "anyvariant" in [getattr(v, "kind", None) for v in env.values()]:
+            return self.place(m.group(2), env)
+        m = re.match(r"^(?:\w+::)*(OwnedTerm|BorrowedTerm)(?:::<'_>)?::(\w+)(?:\((.*)\))?$", rhs)
+        if m and m.group(2) != "Atom":
+            flds = [self.operand(x, env) for x in split_top(m.group(3))] if m.group(3) else []
+            return Val("variant", variant=m.group(2), index=-1, fields=flds, enum=m.group(1))
         m = re.match(r"^std::ops::RangeFrom::<usize> \{ start: const (\d+)_usize \}$", rhs)
         if m:
             return Val("rangefrom", start=int(m.group(1)))
@@ -337,9 +361,9 @@ class Exec:
         raise Unsupported("binop " + op)
 
     # ---------------------------------------------------------------- driver
-    def run(self):
+    def run(self, init_env=None):
         """explores every path from bb0; returns Tree"""
-        self._explore("bb0", 0, {}, None, "true", {}, None)
+        self._explore("bb0", 0, dict(init_env or {}), None, "true", {}, None)
         return self.tree
 
     def _attach(self, parent, cond, node):
@@ -415,6 +439,10 @@ class Exec:
                             c = "(= %s %s)" % (v.s, bv(v.w, int(k)))
                         taken.append(k)
                     c = simplify_const(c)
+                    lit = re.match(r"^\(_ bv(\d+) \d+\)$", v.s) if v.kind == "bv" else None
+                    if lit:     # concrete scrutinee: decide the arm here
+                        val = int(lit.group(1))
+                        c = "true" if ((k == "otherwise" and str(val) not in taken) or (k != "otherwise" and int(k) == val)) else "false"
                     if c == "false":
                         continue
                     npc = c if pc == "true" else ("(and %s %s)" % (pc, c) if c != "true" else pc)
@@ -562,6 +590,73 @@ class Exec:
             else:
                 raise Unsupported("integer method " + op)
             return r, parent, pc, hook, heap
+        m = re.match(r"^core::num::<impl (\w+)>::(unsigned_abs|abs|wrapping_abs|checked_abs|is_negative|is_positive|signum|min|max|clamp|"
+                     r"wrapping_add|wrapping_sub|wrapping_neg|rem_euclid)$", c)
+        if m and m.group(1) in WIDTH and m.group(1).startswith("i"):
+            w = WIDTH[m.group(1)]
+            op = m.group(2)
+            a = A(0)
+            if a.kind != "bv" or a.w != w:
+                raise Unsupported("integer method on " + repr(a))
+            x = a.s
+            neg = "(bvslt %s %s)" % (x, bv(w, 0))
+            absx = "(ite %s (bvneg %s) %s)" % (neg, x, x)
+            is_min = "(= %s %s)" % (x, bv(w, 1 << (w - 1)))
+            if op in ("unsigned_abs", "wrapping_abs"):
+                r = BV(w, absx)
+            elif op == "abs":     # overflow-checks=on: i::MIN.abs() panics
+                self._bad(parent, "(and %s %s)" % (pc, is_min), "panic: attempt to negate with overflow (abs)")
+                pc = "(and %s (not %s))" % (pc, is_min) if pc != "true" else "(not %s)" % is_min
+                r = BV(w, absx)
+            elif op == "checked_abs":
+                r = Val("opt", some="(not %s)" % is_min, val=BV(w, absx), some_idx=1, some_name="Some")
+            elif op == "is_negative":
+                r = BOOL(neg)
+            elif op == "is_positive":
+                r = BOOL("(bvsgt %s %s)" % (x, bv(w, 0)))
+            elif op == "signum":
+                r = BV(w, "(ite %s %s (ite (= %s %s) %s %s))" % (neg, bv(w, -1), x, bv(w, 0), bv(w, 0), bv(w, 1)))
+            elif op == "wrapping_neg":
+                r = BV(w, "(bvneg %s)" % x)
+            else:
+                b = A(1)
+                if b.kind != "bv" or b.w != w:
+                    raise Unsupported("integer method operand")
+                y = b.s
+                if op == "min":
+                    r = BV(w, "(ite (bvsle %s %s) %s %s)" % (x, y, x, y))
+                elif op == "max":
+                    r = BV(w, "(ite (bvsge %s %s) %s %s)" % (x, y, x, y))
+                elif op == "clamp":
+                    z = A(2).s
+                    r = BV(w, "(ite (bvslt %s %s) %s (ite (bvsgt %s %s) %s %s))" % (x, y, y, x, z, z, x))
+                elif op == "wrapping_add":
+                    r = BV(w, "(bvadd %s %s)" % (x, y))
+                elif op == "wrapping_sub":
+                    r = BV(w, "(bvsub %s %s)" % (x, y))
+                elif op == "rem_euclid":
+                    self._bad(parent, "(and %s (= %s %s))" % (pc, y, bv(w, 0)), "panic: rem_euclid by zero")
+                    r = BV(w, "(bvsmod %s (ite (bvslt %s %s) (bvneg %s) %s))" % (x, y, bv(w, 0), y, y))
+                else:
+                    raise Unsupported("integer method " + op)
+            if r.kind == "bv":
+                r.signed = op != "unsigned_abs"
+                r.cast_from = a          # provenance: derived from `a` (followed to its root by the no-fabrication oracle)
+            elif r.kind == "opt" and r.val.kind == "bv":
+                r.val.signed, r.val.cast_from = True, a
+            return r, parent, pc, hook, heap
+        m = re.match(r"^core::num::<impl (\w+)>::clamp$", c)
+        if m and m.group(1) in WIDTH and m.group(1).startswith("u"):
+            w = WIDTH[m.group(1)]
+            x, y, z = A(0).s, A(1).s, A(2).s
+            return BV(w, "(ite (bvult %s %s) %s (ite (bvugt %s %s) %s %s))" % (x, y, y, x, z, z, x)), parent, pc, hook, heap
+        if re.match(r"^(std::result::)?Result::<.*>::unwrap_or_default$|^(std::option::)?Option::<.*>::unwrap_or_default$", c):
+            v = A(0)
+            if v.kind != "opt" or v.val.kind != "bv":
+                raise Unsupported("unwrap_or_default on " + repr(v))
+            r = BV(v.val.w, "(ite %s %s %s)" % (v.some, v.val.s, bv(v.val.w, 0)))
+            r.signed, r.cast_from = getattr(v.val, "signed", False), v.val
+            return r, parent, pc, hook, heap
         m = re.match(r"^<(\w+) as (?:std::convert::)?TryFrom<(\w+)>>::try_from$", c)
         if m and m.group(1) in WIDTH and m.group(2) in WIDTH:
             wt, wf = WIDTH[m.group(1)], WIDTH[m.group(2)]
@@ -704,7 +799,18 @@ class Exec:
             return (Val("opt", some="(or false %s)" % " ".join(conds), val=Val("cenum", disc=disc), some_idx=1, some_name="Some"), parent, pc, hook, heap)
         if re.search(r"fmt::rt::Argument::<'_>::new_|Arguments::<'_>::new|^format$|alloc::fmt::format|must_use::<|as ToString>::to_string$", c):
             return Val("opaque", tag="fmt"), parent, pc, hook, heap
-        if re.search(r"<erltf::Atom as Clone>::clone$|<Atom as Clone>::clone$", c):
+        m = re.match(r"^<(?:types::)?External(Pid|Port|Reference) as Clone>::clone$", c)
+        if m:   # derived Clone copies every field (the E1 harnesses c10_conversion_preserves__*_clone decide that on the compiled code)
+            v = A(0)
+            if v.kind != "ident":
+                raise Unsupported("clone of " + repr(v))
+            return v, parent, pc, hook, heap
+        m = re.match(r"^(?:types::)?External(Pid|Port|Reference)::(new|with_local_ext_bytes)$", c)
+        if m and getattr(self, "ident_mode", False):
+            return (Val("ident", what=m.group(1), origin="rebuilt", local=(m.group(2) == "with_local_ext_bytes")), parent, pc, hook, heap)
+        if re.search(r"<std::vec::Vec<u32> as Clone>::clone$|<Vec<u32> as Clone>::clone$|<std::option::Option<.*Bytes> as Clone>::clone$|<Option<.*Bytes> as Clone>::clone$", c):
+            return A(0), parent, pc, hook, heap
+        if re.search(r"<erltf::Atom as Clone>::clone$|<Atom as Clone>::clone$|<types::Atom as Clone>::clone$", c):
             return Val("opaque", tag="atom"), parent, pc, hook, heap
         if re.search(r"ExternalPid::new$", c):
             return Val("record", name="pid", fields=[A(1), A(2), A(3)]), parent, pc, hook, heap
